@@ -80,14 +80,14 @@ theorem served_o (c : AConn) (f : AFrame) : (served c f).1.o = c.o := by
   · rfl
 
 /-- the answer to a frame costs less than the frame -/
-theorem served_cost (c : AConn) (f : AFrame) (hk : keysOK c.o c.out) :
+theorem served_cost (c : AConn) (f : AFrame) (hk : keysOK c.o c.out) (hmax : c.o ≤ sysMaxsize + 1) :
     (served c f).2.length + 1 ≤ fcost c.o f ∧ ∀ g ∈ (served c f).2, isData g := by
   unfold served fcost
   cases hkd : f.kind with
   | resend b =>
     simp only
     by_cases hb : 1 ≤ b ∧ b < c.o
-    · obtain ⟨s1, s2, _⟩ := serve_spec c b hb.1 hb.2 hk
+    · obtain ⟨s1, s2, _⟩ := serve_spec c b hb.1 hb.2 hk hmax
       have := chain_length s1
       exact ⟨by omega, s2⟩
     · have : c.serve b = (c, []) := by
@@ -124,7 +124,7 @@ theorem est_phase3 {l : ALink} (h : SyncInv' l) (hi : est l.i.st) :
 
 /-- both logged on, a delivery towards A: still both logged on, the counters `o` stay, the cost decreases -/
 theorem step3A {l : ALink} {f : AFrame} {rest : List AFrame} (hs : SafeInv l) (h : SyncInv' l) (hi : est l.i.st)
-    (hq : l.toA = f :: rest) :
+    (hq : l.toA = f :: rest) (hb : Bounded l) :
     est (astep l (.deliverNext .A)).i.st ∧ est (astep l (.deliverNext .A)).a.st ∧
     (astep l (.deliverNext .A)).i.o = l.i.o ∧ (astep l (.deliverNext .A)).a.o = l.a.o ∧
     mu3 (astep l (.deliverNext .A)) < mu3 l := by
@@ -132,9 +132,9 @@ theorem step3A {l : ALink} {f : AFrame} {rest : List AFrame} (hs : SafeInv l) (h
   have hst : l.a.st ≠ .disc := by rcases h3.2.1 with h | h <;> simp [h]
   obtain ⟨e1, e2, e3, e4⟩ := astep_deliverA hq hst
   rw [hq] at h3
-  obtain ⟨r1, _⟩ := recv3 h3 hs.2.e1 hs.2.keys
+  obtain ⟨r1, _⟩ := recv3 h3 hs.2.e1 hs.2.keys hb.2
   obtain ⟨w1, w2⟩ := recv3_wr h3
-  obtain ⟨c1, c2⟩ := served_cost l.a f hs.2.keys
+  obtain ⟨c1, c2⟩ := served_cost l.a f hs.2.keys hb.2
   refine ⟨by rw [e1]; exact hi, by rw [e2]; exact r1.2.1, by rw [e1], by rw [e2, w2], ?_⟩
   unfold mu3
   rw [e1, e2, e3, e4, w1, w2, hq, qcost_cons, qcost_append, qcost_data _ c2]
@@ -142,7 +142,7 @@ theorem step3A {l : ALink} {f : AFrame} {rest : List AFrame} (hs : SafeInv l) (h
 
 /-- both logged on, a delivery towards I -/
 theorem step3I {l : ALink} {f : AFrame} {rest : List AFrame} (hs : SafeInv l) (h : SyncInv' l) (hi : est l.i.st)
-    (hq : l.toI = f :: rest) :
+    (hq : l.toI = f :: rest) (hb : Bounded l) :
     est (astep l (.deliverNext .I)).i.st ∧ est (astep l (.deliverNext .I)).a.st ∧
     (astep l (.deliverNext .I)).i.o = l.i.o ∧ (astep l (.deliverNext .I)).a.o = l.a.o ∧
     mu3 (astep l (.deliverNext .I)) < mu3 l := by
@@ -151,9 +151,9 @@ theorem step3I {l : ALink} {f : AFrame} {rest : List AFrame} (hs : SafeInv l) (h
   obtain ⟨e1, e2, e3, e4⟩ := astep_deliverI hq hst
   have h3' := h3.symm
   rw [hq] at h3'
-  obtain ⟨r1, _⟩ := recv3 h3' hs.1.e1 hs.1.keys
+  obtain ⟨r1, _⟩ := recv3 h3' hs.1.e1 hs.1.keys hb.1
   obtain ⟨w1, w2⟩ := recv3_wr h3'
-  obtain ⟨c1, c2⟩ := served_cost l.i f hs.1.keys
+  obtain ⟨c1, c2⟩ := served_cost l.i f hs.1.keys hb.1
   refine ⟨by rw [e1]; exact r1.2.1, by rw [e2]; exact h3.2.1, by rw [e1, w2], by rw [e2], ?_⟩
   unfold mu3
   rw [e1, e2, e3, e4, w1, w2, hq, qcost_cons, qcost_append, qcost_data _ c2]
